@@ -156,6 +156,16 @@ def gH : Graph := { nodes := [2, 0, 1], decl := fun | 0 => [2] | 1 => [2] | _ =>
 
 example : targetsToRemove gH Q0 = some ([], []) := by decide
 
+-- non-vacuity of `C25_fuel`: a graph with a rule-internal edge (`gen` → `_gen#out`) has a rank function within the bound
+example : GWF gH ∧ RuleRank gH (fun | 1 => 1 | _ => 0) ∧
+    ∀ t ∈ gH.nodes, (fun | 1 => 1 | _ => 0 : Nat → Nat) t ≤ gH.nodes.length := by
+  refine ⟨by unfold GWF; decide, ?_, by decide⟩
+  intro t d hd hp
+  match t, hd, hp with
+  | 0, hd, hp => simp [gH] at hd; subst hd; simp [gH] at hp
+  | 1, hd, hp => simp [gH] at hd; subst hd; simp
+  | (n+2), hd, hp => simp [gH] at hd
+
 /-- `gc-data-file-not-kept` (fixed): `shared.txt` (file 2) is a data file of the binary `bin` and a source of the unused
 `old`; only `old.go` (file 1) goes. -/
 def gD : Graph := { nodes := [0, 1], decl := noL, res := noL, isBinary := fun | 0 => true | _ => false, isTest := noB,
